@@ -604,6 +604,27 @@ where
         &mut self,
         diff: &Diff<T>,
     ) -> Result<(), Self::Error> {
+        // Verify the checkpoint before replacing the events
+        // so a failed verification leaves the event log untouched
+        let mut hashes = diff
+            .patch
+            .records()
+            .iter()
+            .map(|r| *r.commit().as_ref())
+            .collect::<Vec<_>>();
+        let mut tree = CommitTree::new();
+        tree.append(&mut hashes);
+        tree.commit();
+        let computed = tree.head()?;
+        let verified = computed == diff.checkpoint;
+        if !verified {
+            return Err(Error::CheckpointVerification {
+                checkpoint: diff.checkpoint.root,
+                computed: computed.root,
+            }
+            .into());
+        }
+
         self.insert_records(diff.patch.records(), true).await?;
 
         let computed = self.tree().head()?;
